@@ -1406,8 +1406,10 @@ class Collocator:
         intervals = self._get_intervals(primary_time, secondary_time)
 
         # Check whether the time differences are less than the temporal
-        # boundary:
-        passed_time_check = intervals < max_interval
+        # boundary. This must be done with the full resolution of the
+        # timestamps, the intervals above are truncated to whole seconds:
+        passed_time_check = \
+            np.abs(primary_time - secondary_time) < np.timedelta64(max_interval)
 
         return passed_time_check, intervals[passed_time_check]
 
